@@ -166,6 +166,8 @@ pub struct Obs {
     pub draws: Vec<hooks::DrawEvent>,
     /// names of TestCase.signals in order (incl. virtual)
     pub signal_names: Vec<String>,
+    /// a call of vars() panicked
+    pub vars_panic: Option<String>,
 }
 
 fn project_row(row: &dtr::DataRow<'_>) -> ObsRow {
@@ -250,6 +252,7 @@ where
         key: None,
         draws: vec![],
         signal_names: tc.signals.iter().map(|s| s.name.clone()).collect(),
+        vars_panic: None,
     };
     {
         let counter = driver.counter.clone();
@@ -298,6 +301,9 @@ where
                 }
                 if opts.collect_vars {
                     let v = guard(opts.budget, || it.vars());
+                    if let Err(c) = &v {
+                        obs.vars_panic = Some(format!("{c:?}"));
+                    }
                     obs.vars.push(v.ok().map(|m| {
                         let mut v: Vec<(String, i64)> = m.into_iter().collect();
                         v.sort();
@@ -341,6 +347,7 @@ pub fn run_dynamic(text: &str, sigs: &[Sig], ov: bool, script: &[Step], opts: &R
             key: None,
             draws: vec![],
             signal_names: vec![],
+            vars_panic: None,
         },
     }
 }
